@@ -188,6 +188,36 @@ pub fn build<R: Res>(t: &Tree) -> Option<Built<R>> {
     }))
 }
 
+/// an ordinary generator whose first word after being armed is a fixed extreme value
+struct ExtremeFirst {
+    first: Option<u64>,
+    armed: bool,
+    rest: Sm,
+}
+impl rand::RngCore for ExtremeFirst {
+    fn next_u32(&mut self) -> u32 {
+        match (self.armed, self.first) {
+            (true, Some(w)) => {
+                self.armed = false;
+                w as u32
+            }
+            _ => self.rest.next_u32(),
+        }
+    }
+    fn next_u64(&mut self) -> u64 {
+        match (self.armed, self.first) {
+            (true, Some(w)) => {
+                self.armed = false;
+                w
+            }
+            _ => self.rest.next_u64(),
+        }
+    }
+    fn fill_bytes(&mut self, dst: &mut [u8]) {
+        self.rest.fill_bytes(dst)
+    }
+}
+
 fn run_pol<R: Res>(seed: u64, n: usize, pop: &Tree, spec: &Tree, shared_genomes: bool, warm: &[usize]) -> Option<Tree> {
     // with `shared_genomes` neighbouring individuals carry the SAME genome (re-evaluated copies with
     // possibly different results): selection must look at the results only
@@ -215,9 +245,12 @@ fn run_pol<R: Res>(seed: u64, n: usize, pop: &Tree, spec: &Tree, shared_genomes:
             let _ = sel.select(&wp, &mut wrng);
         }
     }
-    let mut rng = Sm::new(seed);
+    // seeds 0 / 1: the FIRST word of every selection is all-zero / all-one (an extreme draw), the rest of the
+    // stream is ordinary (a constant stream would never leave the rejection loops of `rand`)
+    let mut rng = ExtremeFirst { first: match seed { 0 => Some(0), 1 => Some(u64::MAX), _ => None }, armed: false, rest: Sm::new(seed) };
     let mut hist: BTreeMap<i64, u64> = BTreeMap::new();
     for _ in 0..n {
+        rng.armed = true;
         let o = match sel.select(&population, &mut rng) {
             Ok(r) => population.iter().position(|q| std::ptr::eq(q, r)).map_or(-100, |i| i as i64),
             Err(e) => e.0,
@@ -331,6 +364,10 @@ fn gen_c06(tier: &str, rng: &mut Sm) -> Gen {
                     },
                     tl![A(5), A(3), dynlist(rng, n, 2, &w, false)],
                 ] {
+                    // an extreme first random word (all-zero / all-one) in every selection, a few draws: support only
+                    if rng.chance(1, 6) {
+                        g.inputs.push(tl![a(rng.below(2) as i128), A(5), tl![a(pol), L(pop.iter().map(|r| tv(r)).collect()), spec.clone()]]);
+                    }
                     // every third configuration: the selector value has served other populations before
                     // (larger, then smaller) - selectors carry no state from call to call
                     if rng.chance(1, 3) {
@@ -343,7 +380,7 @@ fn gen_c06(tier: &str, rng: &mut Sm) -> Gen {
             }
         }
     }
-    g.meta("generator", "populations: empty, singleton, all-equal, duplicate-laden, ragged (missing cases), random; selectors: best, worst, random, tournament sizes 1..n+2, lexicase case counts 0..4, weighted trees (depth <= 2, weights incl. 0), dynamic lists (also nested)");
+    g.meta("generator", "populations: empty, singleton, all-equal, duplicate-laden, ragged (missing cases), random; selectors: best, worst, random, tournament sizes 1..n+2, lexicase case counts 0..4, weighted trees (depth <= 2, weights incl. 0), dynamic lists (also nested); some configurations with an extreme (all-zero / all-one) first random word in every selection (support only); selector values that served other populations before");
     g
 }
 
@@ -401,7 +438,7 @@ fn gen_c08(tier: &str, rng: &mut Sm) -> Gen {
     let draws = if tier == "thorough" { 400000 } else { 20000 };
     let reps = if tier == "thorough" { 12 } else { 3 };
     for _ in 0..reps {
-        for (n, c) in [(1usize, 3usize), (2, 2), (3, 3), (4, 4), (5, 3), (6, 4), (4, 0), (3, 1)] {
+        for (n, c) in [(1usize, 3usize), (2, 2), (3, 3), (4, 4), (5, 3), (6, 4), (4, 0), (3, 1), (2, 4), (2, 3), (3, 4)] {
             let spread = 1 + rng.range(1, 3);
             let mut pop = matrix(rng, n, c, spread);
             if n >= 3 && rng.chance(1, 2) {
@@ -415,7 +452,21 @@ fn gen_c08(tier: &str, rng: &mut Sm) -> Gen {
             }
         }
     }
-    g.meta("generator", "result matrices up to 6 individuals x 4 cases with ties and duplicates, zero cases, single individual, both polarities, configured case count <= results available");
+    // more cases than individuals with cases on which everybody ties (a tie case must not use up a round), and
+    // equal totals with different per-case vectors
+    for pop in [
+        vec![vec![1i64, 1, 1, 0], vec![1, 1, 1, 1]],
+        vec![vec![0, 0, 0, 5], vec![0, 0, 0, 1], vec![0, 0, 0, 3]],
+        vec![vec![2, 2, 0, 1], vec![2, 2, 1, 0]],
+        vec![vec![3, 0, 0], vec![0, 2, 1]],
+        vec![vec![1, 1, 1, 1], vec![1, 1, 1, 1], vec![1, 1, 1, 2]],
+    ] {
+        let c = pop[0].len();
+        for pol in [0, 1, 2, 3] {
+            g.inputs.push(case(rng, draws, pol, pop.clone(), tl![A(4), au(c)]));
+        }
+    }
+    g.meta("generator", "result matrices up to 6 individuals x 4 cases with ties and duplicates, zero cases, single individual, both polarities, configured case count <= results available, more cases than individuals incl. cases on which everybody ties, equal totals with different per-case vectors");
     g
 }
 
@@ -493,6 +544,12 @@ fn gen_c13(tier: &str, rng: &mut Sm) -> Gen {
             d = tl![A(8), marker(i), a(*w), d];
         }
         let n = if ws.iter().all(|w| *w == 0) { 200 } else { draws / 10 };
+        // the same structures with an extreme (all-zero / all-one) first random word in every selection
+        for extreme in [0i128, 1] {
+            for spec in [left.clone(), right.clone(), d.clone()] {
+                g.inputs.push(tl![a(extreme), A(6), tl![A(1), L(pop.iter().map(|r| tv(r)).collect()), spec]]);
+            }
+        }
         g.inputs.push(case(rng, n, 1, pop.clone(), left));
         if ws.len() > 1 {
             g.inputs.push(case(rng, n, 1, pop.clone(), right));
